@@ -57,6 +57,15 @@ type Conn struct {
 	rDeadline time.Time
 	wDeadline time.Time
 
+	// Blocked receives a token (non-blocking send) every time a Read is about
+	// to wait for input: the caller's goroutine is then pending inside Read.
+	Blocked chan struct{}
+
+	// BlockWrites makes Write behave like a flow-controlled transport whose
+	// peer is not reading: it waits until the write deadline has passed (or
+	// the transport is closed) and then fails.
+	BlockWrites bool
+
 	// OnWrite, when set, is called (without the tap's lock) after every Write
 	// with the bytes that were accepted: the moment they are "on the wire".
 	OnWrite func(b []byte)
@@ -80,7 +89,7 @@ func New(seq *atomic.Int64) *Conn {
 	if seq == nil {
 		seq = new(atomic.Int64)
 	}
-	c := &Conn{FailAt: -1, WriteFailAfter: -1, seq: seq, inErr: io.EOF}
+	c := &Conn{FailAt: -1, WriteFailAfter: -1, seq: seq, inErr: io.EOF, Blocked: make(chan struct{}, 1)}
 	c.cond = sync.NewCond(&c.mu)
 	return c
 }
@@ -167,6 +176,10 @@ func (c *Conn) Read(b []byte) (int, error) {
 			c.log("read", 0, c.inErr, time.Time{})
 			return 0, c.inErr
 		}
+		select {
+		case c.Blocked <- struct{}{}:
+		default:
+		}
 		if !c.rDeadline.IsZero() {
 			// wake up at the deadline
 			d := time.Until(c.rDeadline)
@@ -193,6 +206,22 @@ func (c *Conn) Write(b []byte) (n int, err error) {
 	if c.closed > 0 {
 		c.log("write", 0, net.ErrClosed, time.Time{})
 		return 0, net.ErrClosed
+	}
+	for c.BlockWrites {
+		if c.closed > 0 {
+			c.log("write", 0, net.ErrClosed, time.Time{})
+			return 0, net.ErrClosed
+		}
+		if !c.wDeadline.IsZero() && !time.Now().Before(c.wDeadline) {
+			break
+		}
+		if !c.wDeadline.IsZero() {
+			t := time.AfterFunc(time.Until(c.wDeadline), c.cond.Broadcast)
+			c.cond.Wait()
+			t.Stop()
+			continue
+		}
+		c.cond.Wait()
 	}
 	if !c.wDeadline.IsZero() && !time.Now().Before(c.wDeadline) {
 		c.log("write-timeout", 0, os.ErrDeadlineExceeded, time.Time{})
@@ -248,6 +277,7 @@ func (c *Conn) SetWriteDeadline(t time.Time) error {
 	c.wDeadline = t
 	c.log("wdeadline", 0, nil, t)
 	c.mu.Unlock()
+	c.cond.Broadcast()
 	return nil
 }
 
